@@ -38,7 +38,7 @@ TRUSTED = [
     "C03 denials apply to paths below /proc/<pid> (any pid) and to native per-process calls; the /proc listing itself and /proc/net/* are system-wide and never denied",
 ]
 MANIFEST = {
-    "level_text": "Machine-checked Lean 4 proofs over a shallow state+exception monad model of psutil's Linux process layer and front end: for every modelled public Process method (C03_safe_<method>, assembled in C03_all_methods over the translator-generated public method list, un-modelled names listed explicitly) and EVERY admissible fault plan (the target turns zombie and/or disappears at any access index, at most one access is refused with EACCES/EPERM — a superset of the property's vanishAt/zombieFrom/denyAt/deny-then-vanish plans) the outcome is a well-formed value or NoSuchProcess/ZombieProcess/AccessDenied carrying the object's pid; loops (threads, open_files, net_connections, ppid_map, children, children(recursive=True) with its stack walk, as_dict, process_iter) by induction over the listed names / the walk's fuel so any number of threads/descriptors/PIDs and any process tree is covered; parents() is modelled and the full statement is proved FALSE of the current source (one denial while an ancestor is queried makes it raise NoSuchProcess/AccessDenied carrying the ancestor's pid: C03_parents_counterexample, known finding C03-parents-foreign-pid), with the weaker guarantee (psutil errors only, C03_safe_parents_partial) and the repaired loop (C03_safe_parents_repaired) proved; parsing-error constructors are proved unreachable; the bare FileNotFoundError re-raise of wrap_exceptions is proved unreachable under admissible plans (and reachable with two denials); C03_gone_is_NSP and its history forms: C03_gone_forever_from (the process vanishes at ANY access index k0, also in the middle of an earlier call; every call of any sequence of covered queries that starts at a counter >= k0 raises NoSuchProcess(pid)) and C03_gone_forever_flags (the same with the object's _gone/_pid_reused/_exe attributes threaded through the history, any flag values, is_running() answers False), C03_as_dict_policy, C03_process_iter_swallow. The fuel the model gives to the two while-loops is proved never to run out (C03_children_recursive_fuel_sufficient, C03_parents_fuel_sufficient: any ppid map incl. cycles). Outside the property's quantifier, as characterisation: a table over all modelled methods of what TWO refused accesses do (C03_two_denials_table_leaks: 6 concrete leaking plans, replayed on the real code; C03_two_denials_table_bounded: no pair leaks for the other 31 on the two-process world, bounded exhaustive). children() is proved safe for the repaired ppid_map and a counterexample plan is proved for the unrepaired one (lead L3). Tied to the code by translator facts (except tables, decorator tables) that feed the proof obligation cfg_good, and by an exhaustive single-fault (quick) / double-fault (thorough) differential run of the real methods against the model on fake procfs worlds, plus histories of several calls on ONE object with the vanish point at every index of the history (family history) and every pair of refused accesses on the small worlds (family two_denials). Round 3 (audit): the clause 'the class matches the cause' is in the Spec (Spec.Cause over the property's four plan shapes) and is REFUTED for the source as it is (C03_cause_counterexample: one refused access inside is_running()'s identity probe makes ppid/children/parent/parents raise NoSuchProcess for a live readable process — known finding C03-denied-probe-reads-as-reuse, no repair proposed: it conflicts with C05/C01's recycled-PID statements when the PID's current owner is unreadable); proved only BOUNDED-exhaustively (all plan shapes with indices < 12 / < 16 on the 2- and 3-process worlds: C03_cause_bounded_plain for the 32 queries outside _raise_if_pid_reused, C03_cause_bounded_unrepaired = exactly the probe refusals break it, C03_cause_bounded_repaired for a lenient probe) and decided in Lean on the REAL code's outcome for every property-shaped plan of the correspondence; is_running() never raises (C03_is_running_never_raises); as_dict() in its default form (attrs=None / []) is modelled, proved (C03_as_dict_default_policy) and driven; shape facts (statements inside each modelled try, oneshot()'s finally, as_dict's iteration list, the probe's comparison) feed the obligations cfg_shapes_good / cfg_running_probe_known. Partial: faults at OS-access granularity only; other processes are static during a call; the history theorems assume an inactive oneshot cache at the start of each call and exclude the documented memo answers (pid, create_time, a successful exe(), parent()/parents() of the lowest pid); 'safe under any number of refusals' is only bounded-exhaustive (C03_multi_denial_safe_Full is not proved); 'never a parsing error' is relative to the content abstraction (files of a live or zombie process are well-formed except where the kernel empties them); no correspondence case has object != target or another process changing mid-call.",
+    "level_text": "Machine-checked Lean 4 proofs over a shallow state+exception monad model of psutil's Linux process layer and front end: for every modelled public Process method (C03_safe_<method>, assembled in C03_all_methods over the translator-generated public method list, un-modelled names listed explicitly) and EVERY admissible fault plan (the target turns zombie and/or disappears at any access index, at most one access is refused with EACCES/EPERM — a superset of the property's vanishAt/zombieFrom/denyAt/deny-then-vanish plans) the outcome is a well-formed value or NoSuchProcess/ZombieProcess/AccessDenied carrying the object's pid; loops (threads, open_files, net_connections, ppid_map, children, children(recursive=True) with its stack walk, as_dict, process_iter) by induction over the listed names / the walk's fuel so any number of threads/descriptors/PIDs and any process tree is covered; parents() is modelled and the full statement is proved FALSE of the current source (one denial while an ancestor is queried makes it raise NoSuchProcess/AccessDenied carrying the ancestor's pid: C03_parents_counterexample, known finding C03-parents-foreign-pid), with the weaker guarantee (psutil errors only, C03_safe_parents_partial) and the repaired loop (C03_safe_parents_repaired) proved; parsing-error constructors are proved unreachable; the bare FileNotFoundError re-raise of wrap_exceptions is proved unreachable under admissible plans (and reachable with two denials); C03_gone_is_NSP and its history forms: C03_gone_forever_from (the process vanishes at ANY access index k0, also in the middle of an earlier call; every call of any sequence of covered queries that starts at a counter >= k0 raises NoSuchProcess(pid)) and C03_gone_forever_flags (the same with the object's _gone/_pid_reused/_exe attributes threaded through the history, any flag values, is_running() answers False), C03_as_dict_policy, C03_process_iter_swallow. The fuel the model gives to the two while-loops is proved never to run out (C03_children_recursive_fuel_sufficient, C03_parents_fuel_sufficient: any ppid map incl. cycles). Outside the property's quantifier, as characterisation: a table over all modelled methods of what TWO refused accesses do (C03_two_denials_table_leaks: 6 concrete leaking plans, replayed on the real code; C03_two_denials_table_bounded: no pair leaks for the other 31 on the two-process world, bounded exhaustive). children() is proved safe for the repaired ppid_map and a counterexample plan is proved for the unrepaired one (lead L3). Tied to the code by translator facts (except tables, decorator tables) that feed the proof obligation cfg_good, and by an exhaustive single-fault (quick) / double-fault (thorough) differential run of the real methods against the model on fake procfs worlds, plus histories of several calls on ONE object with the vanish point at every index of the history (family history) and every pair of refused accesses on the small worlds (family two_denials). Round 3 (audit): the clause 'the class matches the cause' is in the Spec (Spec.Cause over the property's four plan shapes) and is REFUTED for the source as it is (C03_cause_counterexample: one refused access inside is_running()'s identity probe makes ppid/children/parent/parents raise NoSuchProcess for a live readable process — known finding C03-denied-probe-reads-as-reuse, no repair proposed: it conflicts with C05/C01's recycled-PID statements when the PID's current owner is unreadable); proved only BOUNDED-exhaustively (all plan shapes with indices < 12 / < 16 on the 2- and 3-process worlds: C03_cause_bounded_plain for the 32 queries outside _raise_if_pid_reused, C03_cause_bounded_unrepaired = exactly the probe refusals break it, C03_cause_bounded_repaired for a lenient probe) and decided in Lean on the REAL code's outcome for every property-shaped plan of the correspondence; is_running() never raises (C03_is_running_never_raises); as_dict() in its default form (attrs=None / []) is modelled, proved (C03_as_dict_default_policy) and driven; shape facts (statements inside each modelled try, oneshot()'s finally, as_dict's iteration list, the probe's comparison) feed the obligations cfg_shapes_good / cfg_running_probe_known. Landing of /repo d7107b4 (C05's repair: the lowest-PID stop of parent() runs self._raise_if_pid_reused() before it answers None): translator fact parentRootStop (total extractor: the statements of the stop and the statement before it, as text when unrecognised) feeds the model branch Fe.rootStop (one more open + read of /proc/<pid>/stat on the stop — on the object itself and on the ancestor object parents() reaches) and the obligation cfg_parent_root_guard; C03_safe_parent, C03_safe_parents_partial and C03_safe_parents_repaired keep their strength and cover the extra probe (it can only end in NoSuchProcess(pid) or let the stop answer None: rootStop_safe), concrete runs on the lowest-PID world in C03_parent_root_stop_probe (3 accesses instead of 1; gone -> NoSuchProcess instead of None; refused probe -> NoSuchProcess = region of finding C03-denied-probe-reads-as-reuse); on the real code the repeated parent()/parents() call after the process is gone must now raise NoSuchProcess for the lowest pid too (exemption removed). Partial: faults at OS-access granularity only; other processes are static during a call; the history theorems assume an inactive oneshot cache at the start of each call and exclude the documented memo answers (pid, create_time, a successful exe()); parent()/parents() depend on the module global _LOWEST_PID and are not history calls of the model; 'safe under any number of refusals' is only bounded-exhaustive (C03_multi_denial_safe_Full is not proved); 'never a parsing error' is relative to the content abstraction (files of a live or zombie process are well-formed except where the kernel empties them); no correspondence case has object != target or another process changing mid-call.",
     "level_note": "Trusted: Lean kernel + {propext, Classical.choice, Quot.sound}; translator; fault layer and correspondence harness; zombie/gone behaviour tables (validated live); file contents are abstracted to well-formed/empty classes (byte-level parsing is C06/C12/C13/C14).",
     "technique": "Lean 4 Hoare-style safety proofs over a fault-plan monad (generic wrap_safe + one body lemma per method, induction for loops) + translator-fed proof obligation + exhaustive fault-position differential correspondence",
     "design_ref": "DESIGN.md §5 C03",
@@ -400,6 +400,33 @@ def facts(snap, F):
         return "yield@%s/%d finally: %s" % (ys, len(t.body), " ;; ".join(deact))
     F.try_add("oneshotShape", "String", lambda: extract.lean_str(oneshot_shape()),
               "psutil.Process.oneshot: position of the yield inside the try and what the finally clause deactivates")
+
+    def parent_root_stop():
+        """parent(): what the lowest-PID stop `if self.pid == lowest_pid:` does before it answers. Total:
+        "guard; return None" = `self._raise_if_pid_reused()` then `return None` (/repo d7107b4: one more identity probe =
+        open + read of /proc/<pid>/stat on that path); "return None" = the stop answers without any access (before);
+        anything else: the statements as text (the model then has no guard and the obligation fails with the new value)"""
+        fn = fm().get("parent")
+        if fn is None:
+            return "<no parent>"
+        stops = [n for n in fn.body if isinstance(n, ast.If)
+                 and ast.unparse(n.test).replace(" ", "") in ("self.pid==lowest_pid", "lowest_pid==self.pid")]
+        if len(stops) != 1:
+            return "<%d lowest-PID tests>" % len(stops)
+        if stops[0].orelse:
+            return "<else on the stop> " + " ;; ".join(_stmts(stops[0].body))
+        # nothing may touch the process between the listing and the stop: the statements before it are pinned too
+        before = _stmts(fn.body[:fn.body.index(stops[0])])
+        if before != ["lowest_pid = _LOWEST_PID if _LOWEST_PID is not None else pids()[0]"]:
+            return "<before the stop> " + " ;; ".join(before)
+        body = _stmts(stops[0].body)
+        if body == ["self._raise_if_pid_reused()", "return None"]:
+            return "guard; return None"
+        if body == ["return None"]:
+            return "return None"
+        return " ;; ".join(body)
+    F.try_add("parentRootStop", "String", lambda: extract.lean_str(parent_root_stop()),
+              "psutil.Process.parent: statements of the lowest-PID stop (guard; return None | return None | the statements)")
 
     def try_scopes():
         """the statements INSIDE each try of the functions whose handlers are modelled (the except classes are separate
@@ -1021,8 +1048,17 @@ def judge(res, inp, out, trace, unknown, later, m, known=()):
         if fid is None:
             return
         res.known_seen[fid] = res.known_seen.get(fid, 0) + 1
-    lowest = inp["world"]["target"] == min(p["pid"] for p in inp["world"]["procs"])
-    if later is not None and call["method"] not in GONE_NSP_EXEMPT and not (call["method"] in ("parent", "parents") and lowest):
+    # the lowest-PID stop of parent() (guarded since /repo d7107b4: fact parentRootStop, model Fe.rootStop): how often the
+    # REAL code took it, on the object itself and on an ancestor object that parents() reached
+    low_pid = min(p["pid"] for p in inp["world"]["procs"])
+    if call["method"] in ("parent", "parents"):
+        if inp["world"]["target"] == low_pid:
+            res.count("root_stop:own:" + fam)
+        elif call["method"] == "parents" and trace.count("open %d/stat" % low_pid) >= 2:
+            res.count("root_stop:ancestor:" + fam)
+    # (until d7107b4 parent()/parents() of the lowest pid were exempt here: the stop answered None from the cached
+    # _LOWEST_PID for a process that no longer exists; the guarded stop raises NoSuchProcess like every other query)
+    if later is not None and call["method"] not in GONE_NSP_EXEMPT:
         if not (later["kind"] == "exc" and later["exc"] == "NoSuchProcess" and later["pid"] == inp["world"]["target"]) \
                 and not (call["method"] == "exe" and later["kind"] == "ok"):
             res.disagree("spec", dict(inp, later=True), later, None, {"gone": "NoSuchProcess(pid)"},
